@@ -296,13 +296,22 @@ pub fn run(ctx: &Ctx) -> i32 {
         only: ctx.only,
     };
     let (max_body, max_conc) = tier.pick((4 << 20, 200), (16 << 20, 200));
-    let summary = runner::run_scenarios(&cfg, move |i, s| scenario(i, s, max_body, max_conc));
+    // the first scenarios are real-socket multi-thread stress runs (E2), the rest simulated
+    let n_real = tier.pick(2, 12);
+    let real_ms = tier.pick(2_500, 15_000);
+    let summary = runner::run_scenarios(&cfg, move |i, s| {
+        if i < n_real {
+            super::realnet::scenario(i, s, real_ms, super::realnet::Judge::Delivery)
+        } else {
+            scenario(i, s, max_body, max_conc)
+        }
+    });
     runner::finish(Report {
         property: "C02",
         tier,
         seed: ctx.seed,
         level: "exploration",
-        rule: "scenario = 2-3 real Networks on the fabric, 1-200 concurrent RPCs in both directions with unique ids, seeded sizes (0 B - multi-MB, packet-boundary biased), header maps, routes, statuses, randomised handler completion order, one fault class; oracle = offline check of the merged call/return/start/finish history (at-most-once, request integrity, response integrity+pairing, no response from nowhere); non-trivial = at least one RPC succeeded; distinct by (concurrency bucket, max body bucket, fault class, out-of-order bucket)".into(),
+        rule: "E2: 2 (thorough 12) real-socket stress runs: 3 Networks on UDP loopback, a 6-worker runtime, 18 RPC generators with 24 calls in flight each (bodies up to 200 KB), concurrent dial/disconnect churn, 2.5 s (thorough 15 s) each, same oracle. E1: scenario = 2-3 real Networks on the fabric, 1-200 concurrent RPCs in both directions with unique ids, seeded sizes (0 B - multi-MB, packet-boundary biased), header maps, routes, statuses, randomised handler completion order, one fault class; oracle = offline check of the merged call/return/start/finish history (at-most-once, request integrity, response integrity+pairing, no response from nowhere); non-trivial = at least one RPC succeeded; distinct by (concurrency bucket, max body bucket, fault class, out-of-order bucket)".into(),
         assumptions: vec![
             "body equality is decided on (length, 64-bit SipHash)".into(),
             "loss/reordering/duplication are injected below QUIC on the simulated fabric".into(),
@@ -311,6 +320,6 @@ pub fn run(ctx: &Ctx) -> i32 {
         extra: Default::default(),
         exhaustive: None,
         min_signatures: 8,
-        required_counters: vec!["rpc_ok", "handler_starts", "out_of_order_completions"],
+        required_counters: vec!["rpc_ok", "handler_starts", "out_of_order_completions", "realnet_rpcs_ok"],
     })
 }
